@@ -100,7 +100,7 @@ LIST = C.Kind("get_schedules", impl=_impl, model=lambda a: f"getsched {Z.zone_to
 def _readback(a):
     """create_schedule (real API, scripted device) -> record bytes -> listed back -> get_schedules (real)"""
     zone, now, s, e, days, slot = a["zone"], a["now"], a["start"], a["stop"], a["days"], a["slot"]
-    case = {"did": "a123bc", "key": "18", "now": now, "tz": zone, "req": {"op": "createsched", "start": s, "stop": e, "days": days, "form": "set"},
+    case = {"did": "a123bc", "key": "18", "now": now, "tz": zone, "req": {"op": "createsched", "start": s, "stop": e, "days": days, "form": a.get("form", "set")},
             "replies": [H.login_reply(b"\x01\x02\x03\x04"), "00"]}
     out = H.run_case(case)
     fr = H.frames_of(out)
@@ -169,7 +169,8 @@ def streams(ctx):
         for now in Z.interesting_instants(rng, zone, ctx.n(25, 500)):
             s, e = rng.randrange(1440), rng.randrange(1440)
             rb.append({"zone": zone, "now": now, "start": "%02d:%02d" % divmod(s, 60), "stop": "%02d:%02d" % divmod(e, 60),
-                       "days": sorted(rng.sample(range(7), rng.randrange(0, 8))), "slot": rng.randrange(8)})
+                       "days": sorted(rng.sample(range(7), rng.randrange(0, 8))), "slot": rng.randrange(8),
+                       "form": ["set", "set", "list", "tuple", "frozenset"][len(rb) % 5]})     # the days as a set, a list, a tuple, a frozenset
     ctx.run_cases(LIST, "listed-replies-under-zones", lst, exhaustive=False, sample_every=max(1, len(lst) // 3))
     bad = [{"zone": "UTC", "now": 1.75e9, "reply": r} for r in ["-", "00" * 10, "00" * 49, "00" * 50, "00" * 57, "00" * 64, "00" * 65, "00" * 66]]
     # arbitrary instants are far from the clock reading, outside the exported zone window: a zone without transitions
